@@ -1,6 +1,7 @@
 package main
 
 import (
+	"fmt"
 	"go/token"
 
 	"golang.org/x/tools/go/ssa"
@@ -26,6 +27,42 @@ func runC01(c *Ctx) {
 			c.NoPathAfterWhen(send, del, fk(f, "delete-only-after-all-sent"), F(AErrNil("SendIBCPacket ok", PIs(send.Value()))))
 			c.Check(!inLoop(del) && PParam("consumerId")(arg(del, 1)), fk(f, "delete-once-after-loop"), del, "deleted once for this consumer after the loop")
 			c.Check(PElemOf(PCall("pk.Keeper.GetPendingVSCPackets", -1, nil, nil, PParam("consumerId")))(callRecvOrArg(send)) && PParam("channelId")(arg(send, 2)), fk(f, "sends-stored-packets-in-order"), send, "sends the stored packets of this consumer, in slice order, on the given channel")
+		}
+	}
+
+	// the shared send helper forwards its arguments in their roles and arms a time-based timeout
+	if f := c.Fn("ccv.SendIBCPacket"); f != nil {
+		if sp := c.one(f, false, "ccv.ChannelKeeper.SendPacket"); sp != nil {
+			okRoles := PParam("sourcePortID")(arg(sp, 1)) && PParam("sourceChannelID")(arg(sp, 2)) && PParam("packetData")(arg(sp, 5))
+			c.Check(okRoles, fk(f, "forwards-arguments"), sp, "SendPacket(ctx, sourcePortID, sourceChannelID, _, _, packetData); found "+describe(arg(sp, 1))+", "+describe(arg(sp, 2))+", "+describe(arg(sp, 5)))
+			wantTs := PCall("time.Time.UnixNano", -1, PCall("time.Time.Add", -1, PCall("sdk.Context.BlockTime", -1, nil), PParam("timeoutPeriod")))
+			ts := arg(sp, 4)
+			if cv, ok := ts.(*ssa.Convert); ok {
+				ts = cv.X
+			}
+			c.Check(wantTs(ts), fk(f, "timeout-is-blocktime-plus-period"), sp, "timeout timestamp = BlockTime().Add(timeoutPeriod).UnixNano(); found "+describe(ts))
+			for _, r := range Returns(f) {
+				if mustPassBefore(r, sp) {
+					c.Check(PIs(extractOf(sp, 1))(r.Results[0]), fk(f, "returns-send-error"), r, "after SendPacket the helper returns SendPacket's error")
+				}
+			}
+		}
+	}
+	if f := c.Fn("pk.Keeper.SendVSCPacketsToChain"); f != nil {
+		if send := c.one(f, false, "ccv.SendIBCPacket"); send != nil {
+			port, _ := c.StringConst("ccv.ProviderPortID")
+			got, isC := constString(arg(send, 3))
+			c.Check(isC && got == port && PCall("pk.Keeper.GetCCVTimeoutPeriod", -1, nil)(arg(send, 5)), fk(f, "port-and-timeout"), send, "sent from the provider port with the CCV timeout period parameter; found "+describe(arg(send, 3))+", "+describe(arg(send, 5)))
+		}
+	}
+
+	if f := c.Fn("pk.Keeper.InitGenesis"); f != nil {
+		cs := PElemOf(PField(PParam("genState"), "ConsumerStates"))
+		c.ArgRoles(f, "pk.Keeper.AppendPendingVSCPackets", "genesis-pending-packets", "AppendPendingVSCPackets(cs.ChainId, cs.PendingValsetChanges...)", PField(cs, "ChainId"), PField(cs, "PendingValsetChanges"))
+	}
+	if f := c.Fn("pk.Keeper.ExportGenesis"); f != nil {
+		if g := c.one(f, false, "pk.Keeper.GetPendingVSCPackets"); g != nil {
+			c.Check(elementOfCall(arg(g, 1), "pk.Keeper.GetAllConsumersWithIBCClients"), fk(f, "exports-pending-packets"), g, "exports the pending packets of the consumer being exported; found "+describe(arg(g, 1)))
 		}
 	}
 
@@ -202,11 +239,52 @@ func runC01(c *Ctx) {
 	}
 
 	// ---- R7 ------------------------------------------------------------------------------------
-	c.Rule("R7", "launch-time set: the genesis handed to the consumer carries ComputeConsumerNextValSet(..., empty current set) (see C10.R5), i.e. the same pipeline as every later update", 1)
+	c.Rule("R7", "launch-time set: the genesis handed to the consumer carries ComputeConsumerNextValSet(..., empty current set) (see C10.R5), i.e. the same pipeline as every later update; the consumer applies exactly state.Provider.InitialValSet at genesis (or, for a changeover chain, stores it and applies it once at the changeover) and hands it to the consensus engine", 6)
 	if f := c.Fn("pk.Keeper.LaunchConsumer"); f != nil {
 		mk := c.one(f, false, "pk.Keeper.MakeConsumerGenesis")
 		if mk != nil {
 			c.Check(PCall("pk.Keeper.ComputeConsumerNextValSet", 0, nil, nil, PParam("bondedValidators"), PParam("activeValidators"), PParam("consumerId"), nil)(arg(mk, 2)), fk(f, "genesis-set-from-same-pipeline"), mk, "initial updates = ComputeConsumerNextValSet(bonded, active, consumerId, empty)")
+		}
+	}
+	// consumer side: the genesis set is applied to the cross-chain validator table and is what the
+	// consensus engine receives; a changeover chain stores it and applies it once, at the changeover
+	initial := PField(PField(PParam("state"), "Provider"), "InitialValSet")
+	if f := c.Fn("ck.Keeper.InitGenesis"); f != nil {
+		preCCV := ABool("state.PreCCV", PField(PParam("state"), "PreCCV"))
+		enabled := ABool("state.Params.Enabled", PField(PField(PParam("state"), "Params"), "Enabled"))
+		ap := c.one(f, false, "ck.Keeper.ApplyCCValidatorChanges")
+		st := c.one(f, false, "ck.Keeper.SetInitialValSet")
+		if ap != nil && st != nil {
+			c.Check(initial(arg(ap, 1)) && initial(arg(st, 1)), fk(f, "genesis-set-applied"), ap, "ApplyCCValidatorChanges and SetInitialValSet receive state.Provider.InitialValSet; found "+describe(arg(ap, 1))+", "+describe(arg(st, 1)))
+			n := 0
+			for _, r := range reachableReturns(f, F(preCCV), T(enabled)) {
+				n++
+				c.Check(mustPassBefore(r, ap) && initial(r.Results[0]), fk(f, "genesis-set-returned"), r, "a regular (enabled, not PreCCV) start applies the genesis set and returns exactly it; found "+describe(r.Results[0]))
+			}
+			c.Check(n > 0, fk(f, "genesis-set-returned", "census"), f, fmt.Sprintf("%d returns of a regular start analysed", n))
+			for _, r := range reachableReturns(f, T(preCCV)) {
+				c.MustPassWhen(r, []ssa.Instruction{st}, fk(f, "changeover-set-stored"), T(preCCV))
+			}
+			c.UnreachableWhen(ap, fk(f, "changeover-not-applied-at-genesis"), T(preCCV))
+		}
+	}
+	if f := c.Fn("ck.Keeper.ChangeoverToConsumer"); f != nil {
+		if ap := c.one(f, false, "ck.Keeper.ApplyCCValidatorChanges"); ap != nil {
+			c.Check(PCall("ck.Keeper.GetInitialValSet", -1, nil)(arg(ap, 1)), fk(f, "applies-stored-genesis-set"), ap, "the changeover applies GetInitialValSet(); found "+describe(arg(ap, 1)))
+			if del := c.one(f, false, "ck.Keeper.DeletePreCCV"); del != nil {
+				for _, r := range Returns(f) {
+					c.Check(mustPassBefore(r, del) && mustPassBefore(r, ap), fk(f, "once"), r, "every return passes the apply and DeletePreCCV (the changeover runs once)")
+				}
+			}
+		}
+	}
+	if f := c.Fn("consumer.AppModule.EndBlock"); f != nil {
+		if ch := c.one(f, false, "ck.Keeper.ChangeoverToConsumer"); ch != nil {
+			pre := ABool("IsPreCCV()", PCall("ck.Keeper.IsPreCCV", -1, nil))
+			c.GuardedBy(ch, fk(f, "changeover-only-preccv"), pre)
+			for _, r := range reachableReturns(f, T(pre)) {
+				c.Check(PIs(ch.Value())(r.Results[0]), fk(f, "changeover-result-returned"), r, "while PreCCV, EndBlock returns the changeover's updates; found "+describe(r.Results[0]))
+			}
 		}
 	}
 }
